@@ -1,3 +1,5 @@
 SPECIFICATION Spec
 CONSTANT Sorted = TRUE
+CONSTANT NamesAsWritten = TRUE
 INVARIANT Deterministic
+INVARIANT NoInternalName
